@@ -309,6 +309,11 @@ def examine_output_dir_to_determine_current_iteration(output_dir, batch_size):
 
         plate_dirs = sorted(plate_dirs, key=dir_sort_key)
 
+        if not plate_dirs:
+            # an iteration directory without plate directories (interrupted between the
+            # two levels of makedirs, or its only job dir was deleted) holds no progress
+            continue
+
         current_plate_idx = 0
 
         for idx, plate_dir in enumerate(plate_dirs):
